@@ -186,7 +186,7 @@ func runC08(c *Ctx) {
 	rgs := f.RowGroups()
 
 	// choose the target and build its ground truth from a fresh sequential pass
-	kind := c.Case % 14
+	kind := c.Case % 15
 	forwardOnly := false
 	var mk func() seekTarget
 	col := r.Intn(ncols)
@@ -287,6 +287,31 @@ func runC08(c *Ctx) {
 			}
 			return &rowsTarget{name: "ConvertedForwardOnlyRows", n: pick.NumRows(), rr: sk, closer: func() { rr.Close() }}
 		}
+	case 14:
+		// a sorted merge of overlapping inputs (rows dealt out to 2..3 buffers in turn): its reader offers forward seeks
+		if _, ok := schema.Lookup("id"); !ok || n < 2 {
+			mk = rowsOf(pick, "RowGroupRows")
+			break
+		}
+		nb := 2 + r.Intn(2)
+		bufs := make([]parquet.RowGroup, nb)
+		for j := range bufs {
+			b := parquet.NewBuffer(te.ops.Schema(), parquet.SortingRowGroupConfig(parquet.SortingColumns(parquet.Ascending("id"))))
+			for i := j; i < n; i += nb {
+				if _, err := b.WriteRows([]parquet.Row{te.ops.Schema().Deconstruct(nil, rows.Index(i).Interface())}); err != nil {
+					c.Fail("harness.buffer", nil, "%v", err)
+					return
+				}
+			}
+			bufs[j] = b
+		}
+		merged, err := parquet.MergeRowGroups(bufs, parquet.SortingRowGroupConfig(parquet.SortingColumns(parquet.Ascending("id"))))
+		if err != nil {
+			c.Fail("harness.merge", nil, "%v", err)
+			return
+		}
+		forwardOnly = true
+		mk = rowsOf(merged, "MergedSortedRows")
 	case 11:
 		// the explicit asynchronous wrappers over a synchronously opened file
 		arg := parquet.AsyncRowGroup(pick)
